@@ -71,9 +71,12 @@ pub fn frag_case() -> BoxedStrategy<FragCase> {
         1 => Just("(Vec3,(f32,Point2))"),
     ];
     let attrs = proptest::array::uniform3(proptest::array::uniform6(attr_val()));
-    (tri_case(), zs, ty, attrs, any::<bool>())
-        .prop_map(|(tri, z, ty, mut a, constant)| {
-            let mut z = z;
+    // the property bounds the RATIO of the depths (10:1), not their magnitude: far-away geometry has tiny reciprocal depths
+    let zexp = prop_oneof![5 => Just(0i32), 1 => Just(-24i32), 1 => Just(-30i32), 3 => -40i32..=10];
+    (tri_case(), zs, ty, attrs, any::<bool>(), zexp)
+        .prop_map(|(tri, z, ty, mut a, constant, zexp)| {
+            let k = 2f32.powi(zexp);
+            let mut z = z.map(|v| v * k);
             if ty == "Color3f" {
                 // ZDiv for colours is the identity (affine interpolation by design, DESIGN D-e):
                 // exercised where both readings coincide, i.e. with equal depth at all vertices
@@ -314,6 +317,9 @@ pub fn check(c: &FragCase, obs: &mut Obs) -> Check {
     } else {
         "domain:scaled-tolerance"
     });
+    if zmag < 1e-6 {
+        obs.class("depth-magnitude:tiny(<1e-6)");
+    }
     if zr > 0.0 {
         let ratio = z.iter().cloned().fold(f64::MIN, f64::max) / z.iter().cloned().fold(f64::MAX, f64::min);
         obs.class(if ratio > 5.0 { "w-ratio>5" } else if ratio > 2.0 { "w-ratio 2..5" } else { "w-ratio<2" });
